@@ -271,3 +271,7 @@ def run(ctx: Ctx, rep: Report, tier: str):
              "from last sync, or path differs, or the side is gone)", 2)
     definition_holds(ctx, rep, "C01.R15", "SideState.needs_sync", "an entry that differs between the sides can be dropped from the work list (quiet but unequal), or one that does not can stay pending for ever")
     definition_holds(ctx, rep, "C01.R15", "SyncEntry.needs_sync", "a change on one side is not seen as work")
+    from rules.common import embrace_dispatch
+    rep.rule("C01.R16", "the sync step dispatches on the state of the changed side, each arm under exactly its own condition: missing -> handle_changed_is_missing, renamed or new -> "
+             "handle_path_change_or_creation, content differs / corrupt peer -> handle_hash_diff", 3)
+    embrace_dispatch(ctx, rep, "C01.R16")
